@@ -221,6 +221,8 @@ func (ord *Order) Calculate() error {
 	// Try to set Regime if not already prepared from the supplier's tax ID
 	if ord.Regime.IsEmpty() {
 		ord.SetRegime(partyTaxCountry(ord.Supplier))
+	} else {
+		ord.NormalizeRegime()
 	}
 	ord.Normalize(ord.normalizers())
 	return calculate(ord)
